@@ -38,6 +38,7 @@ OtherComp(c) == IF c = "A" THEN "B" ELSE IF c = "B" THEN "A" ELSE "Z"
 AssignNamesOf(m) == m.aN
 FaultKinds == {"dup-identical", "dup-diff-samedeps", "dup-regrouped", "dup-diff-deps", "dup-other-comp-diff", "dup-other-comp-identical",
                "clash-state-param-equal", "clash-state-param-unequal", "clash-param-inter", "clash-state-inter",
+               "clash-param-derivative", "clash-param-any-assignment",
                "dup-state-diff", "dup-param-diff", "dup-state-identical",
                "missing-derivative", "orphan-derivative", "misplaced-derivative",
                "orphan-derivative-stateless", "derivative-of-parameter", "derivative-copy-elsewhere",
@@ -46,7 +47,8 @@ FaultKinds == {"dup-identical", "dup-diff-samedeps", "dup-regrouped", "dup-diff-
 Sites(k) ==
   CASE k \in {"dup-identical", "dup-diff-samedeps", "dup-regrouped", "dup-diff-deps", "dup-other-comp-diff", "dup-other-comp-identical",
               "undefined-symbol", "cycle-1"} -> mi.aN
-    [] k \in {"missing-derivative", "misplaced-derivative", "derivative-copy-elsewhere"} -> mi.dN
+    [] k \in {"missing-derivative", "misplaced-derivative", "derivative-copy-elsewhere", "clash-param-derivative"} -> mi.dN
+    [] k = "clash-param-any-assignment" -> mi.aN
     [] k \in {"clash-state-param-equal", "clash-state-param-unequal", "clash-state-inter", "dup-state-diff", "dup-state-identical"} -> mi.sN
     [] k \in {"clash-param-inter", "dup-param-diff", "undefined-in-param-value"} -> mi.pN
     [] k = "cycle-2" -> {n \in mi.iN : \E m \in mi.aN : n \in Vars(mi.ex[m]) /\ m # n}
@@ -67,6 +69,10 @@ Apply(bs, k, n) ==
     [] k = "clash-state-param-unequal" -> AddEntry(bs, "parameters", c, Entry(n, N("8")))
     [] k = "clash-param-inter"   -> AddEntry(bs, "expressions", c, Entry(n, N("8")))
     [] k = "clash-state-inter"   -> AddEntry(bs, "expressions", c, Entry(n, e))
+    \* a DECLARED quantity that carries the name of an assigned one: a parameter named like a state derivative
+    \* (parameters(dx_dt = 8) next to dx_dt = ..), a parameter named like any assignment, declared in the other component
+    [] k = "clash-param-derivative"     -> AddEntry(bs, "parameters", c, Entry(n, N("8")))
+    [] k = "clash-param-any-assignment" -> AddEntry(bs, "parameters", OtherComp(c), Entry(n, N("8")))
     [] k = "dup-state-diff"      -> AddEntry(bs, "states", c, Entry(n, N("8")))
     [] k = "dup-state-identical" -> AddEntry(bs, "states", c, EntryIn(bs, n))
     [] k = "dup-param-diff"      -> AddEntry(bs, "parameters", c, Entry(n, N("8")))
